@@ -125,3 +125,9 @@ if _os.path.exists(_tj):
     for _pid, _thms in _json.load(open(_tj)).items():
         if _pid in PENDING:
             PROPS[_pid] = dict(PENDING.pop(_pid), theorems=_thms)
+
+_ej = _os.path.join(_os.path.dirname(_os.path.abspath(__file__)), 'extra_props.json')
+if _os.path.exists(_ej):
+    for _pid, _files in _json.load(open(_ej)).items():
+        if _pid in PROPS:
+            PROPS[_pid]['extra_props_files'] = _files
